@@ -47,6 +47,7 @@ let parse line =
       end else (None, false) in
     if peek "G" then begin incr pos; let n = ni () in for _ = 1 to n do ignore (ni ()) done end;   (* control flows carry no data *)
     { c_R = z_of_int r; c_mod = (md <> 0); c_in = inp; c_outs = outs; c_in2 = in2; c_bfirst = bf }) in
+  if !pos < Array.length t && t.(!pos) = "T" then (incr pos; ignore (ni ()));   (* broadcast topology of the run *)
   let fixed = if !pos < Array.length t && t.(!pos) = "V" then (incr pos; ni () <> 0) else false in
   { p_nranks = z_of_int nranks; p_mb = z_of_int mb; p_esz = z_of_int esz; p_nt = z_of_int nt;
     p_owner = List.map z_of_int owner; p_cls = classes; p_fixed = fixed }
